@@ -39,12 +39,15 @@ type K struct {
 	Other   []Violation // violations of properties other than Prop (ignored for the verdict, counted)
 	Nontriv bool
 	Info    map[string]any
+	// KnownHits counts violations that matched a known finding marked
+	// "continue": true in known_findings.json (the run goes on past them).
+	KnownHits map[string]int
 }
 
 func newK(prop, tier string, tape *Tape, ix uint64) *K {
 	h := fnv.New64a()
 	return &K{Prop: prop, Tier: tier, Tape: tape, RunIx: ix, logCap: 400,
-		Faults: map[string]int{}, Probes: map[string]int{}, fp: h.Sum64(), Info: map[string]any{}}
+		Faults: map[string]int{}, Probes: map[string]int{}, fp: h.Sum64(), Info: map[string]any{}, KnownHits: map[string]int{}}
 }
 
 func (k *K) Choose(n int, label string) int { return k.Tape.Choose(n, label) }
@@ -112,14 +115,21 @@ func (k *K) Fingerprint() uint64 { return k.fp }
 
 // Violate reports an oracle failure. If it belongs to the property being
 // checked the run stops immediately (first violation wins); violations of other
-// properties evaluated in the same shared run are only counted.
-func (k *K) Violate(prop, oracle, class, format string, a ...any) {
+// properties evaluated in the same shared run are only counted and Violate
+// returns false. If the violation matches a known finding that is marked
+// "continue" (the defect leaves model and system in agreement, so exploring
+// further is sound) it is counted in KnownHits and Violate returns true.
+func (k *K) Violate(prop, oracle, class, format string, a ...any) (cont bool) {
 	v := Violation{Prop: prop, Oracle: oracle, Class: class, Msg: fmt.Sprintf(format, a...)}
+	if kf := matchKnown(knownList(), ReplayFile{Property: prop, Oracle: oracle, Class: class}); kf != nil && kf.Continue {
+		k.KnownHits[v.Key()]++
+		return true
+	}
 	if prop != k.Prop {
 		if len(k.Other) < 8 {
 			k.Other = append(k.Other, v)
 		}
-		return
+		return false
 	}
 	if k.Viol == nil {
 		k.Viol = &v
